@@ -89,7 +89,7 @@ func init() {
 		rulePluralDelegates(inMVT, 4),
 		ruleProtoTables,
 		ruleMemberLoops(inMVT, 18, 0),
-		ruleCompose(concatSpecs(mvtMarshalSpecs, mvtIDSpecs), 9),
+		ruleCompose(concatSpecs(mvtMarshalSpecs, mvtIDSpecs), 19),
 	)
 
 	register("C04",
